@@ -360,6 +360,26 @@ def c08(res: Result):
     q = res.tier == Q
     rng = random.Random(res.seed + 8)
     recs = run_mc(res, "cand", ["exp", "skipmin", "cand"], 3, [], [1000], ["Inv_WF", "Inv_CacheFresh"], None)
+    # the candidate pipeline itself (Candidates.tla): every NFVS, retained assignment, solver truncation, flip order and
+    # simulation outcome, for every option combination and configuration value
+    for mode in (["all2"] if q else ["all2", "file"]):
+        wd = os.path.join(sdcheck.WORK, res.pid, "pipeline_" + mode)
+        shutil.rmtree(wd, ignore_errors=True)
+        os.makedirs(wd)
+        cfgp = os.path.join(wd, "cand.cfg")
+        tlc.write_cfg(cfgp, invariants=["TypeOK", "Inv_Covers", "Inv_Error", "Inv_Mechanism"], properties=["Termination"],
+                      constants={"NetMode": f'"{mode}"', "Legacy": "FALSE",
+                                 "CandLims": tlc.tla_set([0, 2, 100] if q or mode == "file" else [0, 1, 2, 3, 100]),
+                                 "Thresholds": tlc.tla_set([0, 2, 100] if q or mode == "file" else [0, 1, 2, 100]),
+                                 "Budgets": tlc.tla_set([2] if q or mode == "file" else [0, 2])})
+        r = tlc.model_check("Candidates", cfgp, wd, env={"CATALOGUE": os.path.join(tlc.SPEC_DIR, "catalogue.ndjson")}, timeout=7200)
+        res.cov["states"] += r["distinct"]
+        res.cov["transitions"] += r["generated"]
+        res.cov["mc_runs"].append({"name": "Candidates pipeline", "nets": mode, "distinct_states": r["distinct"],
+                                   "properties": ["Inv_Covers", "Inv_Error", "Inv_Mechanism", "Termination"], "ok": r["ok"],
+                                   "wall_s": round(r["wall_s"], 1)})
+        if not r["ok"]:
+            res.violations.append(f"{r['log']}#model:{','.join(r['violated'])}")
     tasks = []
     pool = gen.network_pool(rng, N(q, 700, 9000), [2, 2, 3, 3, 4, 4, 5] if q else [2, 3, 4, 4, 5, 5, 6])
     for i, tt in enumerate(pool):
@@ -464,6 +484,12 @@ def c15(res: Result):
             tasks.append({"tid": f"s{i}_{z}", "tt": tt, "meta": "size-limited block expansion with sources",
                           "ops": [{"op": "block", "maa": rng.random() < 0.5, "optsrc": True, "exact": False, "size": z},
                                   {"op": "block", "maa": True, "optsrc": True, "exact": False, "size": -1}]})
+    # limited calls on pre-expanded deep diagrams (a limit may cut the traversal at nodes that are already expanded)
+    pats = [[{"op": "bfs", "n": 1, "lvl": lv, "size": -1}, {"op": "dfs", "n": 1, "stk": st, "size": -1}] for lv in (1, 2) for st in (0, 1)]
+    pats += [[{"op": "dfs", "n": 1, "stk": st, "size": -1}, {"op": "bfs", "n": 1, "lvl": lv, "size": -1}] for lv in (0, 1) for st in (1, 2)]
+    pats += [[{"op": "bfs", "n": 1, "lvl": 1, "size": -1}, {"op": "bfs", "n": 2, "lvl": 0, "size": z}, {"op": "dfs", "n": 1, "stk": -1, "size": z}] for z in (4, 7)]
+    tasks += feature_tasks("fl", pats, kinds=["deep", "modules", "shortcut2"], max_n=5)
+    tasks += gadget_tasks("gl", pats, only=["xnor_2latch", "nscc_latch", "maa_inner_latch", "doc", "c20"])
     # fault enumeration: every solver call of the last call fails once
     fpool = gen.network_pool(rng, N(q, 100, 2000), [3, 4, 4, 5])
     for i, tt in enumerate(fpool):
